@@ -1,6 +1,8 @@
 package comb
 
 import (
+	"context"
+	"crypto/elliptic"
 	"encoding/binary"
 	"fmt"
 	"sort"
@@ -15,8 +17,18 @@ import (
 	"github.com/scionproto/scion/pkg/snet"
 	"github.com/scionproto/scion/private/topology"
 
+	"github.com/scionproto/scion/pkg/scrypto/cppki"
+	"github.com/scionproto/scion/pkg/scrypto/signed"
+	"github.com/scionproto/scion/private/trust"
+
 	"verif/internal/netsim"
+	"verif/internal/pki"
 )
+
+func synthSigner() trust.Signer {
+	return trust.Signer{PrivateKey: pki.Key(elliptic.P256(), 2000), Algorithm: signed.ECDSAWithSHA256, IA: addr.MustParseIA("1-ff00:0:1"), SubjectKeyID: []byte("synth"),
+		Expiration: time.Now().Add(10000 * time.Hour), TRCID: cppki.TRCID{ISD: 1, Base: 1, Serial: 1}}
+}
 
 // ---------------------------------------------------------------------------------------------
 // Segment synthesis: all construction-direction chains of a generated topology, as the segments
@@ -34,7 +46,11 @@ type world struct {
 
 func (w *world) link(a *netsim.ASSpec, ifc netsim.IfSpec) *netsim.ASSpec { return w.byIA[ifc.Remote] }
 
-func genWorld(rt *rapid.T, perturb bool) *world {
+func genWorld(rt *rapid.T, perturb bool) *world { return genWorldAt(rt, perturb, 3000, false) }
+
+// genWorldAt: segment ages up to maxAge seconds.
+// signedEntries: AS entries carry a signed body (needed to store the segments in a path database).
+func genWorldAt(rt *rapid.T, perturb bool, maxAge int, signedEntries bool) *world {
 	w := &world{topo: netsim.GenTopo(rt), byIA: map[addr.IA]*netsim.ASSpec{}}
 	for i := range w.topo.ASes {
 		w.byIA[w.topo.ASes[i].IA] = &w.topo.ASes[i]
@@ -42,7 +58,7 @@ func genWorld(rt *rapid.T, perturb bool) *world {
 	now := time.Now().Truncate(time.Second)
 	mkSeg := func(chain []*netsim.ASSpec, via []netsim.IfSpec) *seg.PathSegment {
 		// via[k] = interface of chain[k] towards chain[k+1]
-		ts := now.Add(-time.Duration(rapid.IntRange(0, 3000).Draw(rt, "segAge")) * time.Second)
+		ts := now.Add(-time.Duration(rapid.IntRange(0, maxAge).Draw(rt, "segAge")) * time.Second)
 		ps, err := seg.CreateSegment(ts, rapid.Uint16().Draw(rt, "segID"))
 		if err != nil {
 			panic(err)
@@ -84,7 +100,13 @@ func genWorld(rt *rapid.T, perturb bool) *world {
 			if perturb && rapid.IntRange(0, 3).Draw(rt, "perturbMTU") == 0 {
 				e.MTU = rapid.IntRange(1000, 1600).Draw(rt, "entryMTU")
 			}
-			ps.ASEntries = append(ps.ASEntries, e)
+			if signedEntries {
+				if err := ps.AddASEntry(context.Background(), e, synthSigner()); err != nil {
+					panic(err)
+				}
+			} else {
+				ps.ASEntries = append(ps.ASEntries, e)
+			}
 		}
 		return ps
 	}
